@@ -192,7 +192,7 @@ func (m *Model) RunOwn(s *Sink, rule string) {
 		for _, b := range act.Blocks {
 			for _, in := range b.Instrs {
 				c, isC := in.(*ssa.Call)
-				if !isC || c.Call.StaticCallee() == nil || c.Call.StaticCallee().Name() != "New" || len(c.Call.Args) < 5 {
+				if !isC || c.Call.StaticCallee() == nil || canonFnName(c.Call.StaticCallee()) != "New" || len(c.Call.Args) < 5 {
 					continue
 				}
 				msg, _ := constOfValue(c.Call.Args[3])
